@@ -338,3 +338,7 @@ Proof.
   - destruct (l =? 0); reflexivity.
   - reflexivity.
 Qed.
+
+Lemma sq_frame_reachable : forall h o b', target o <> Some b' ->
+  sq_view (fst (sq_step (sq_run sq_init h) o)) b' = sq_view (sq_run sq_init h) b'.
+Proof. intros h o b'. apply sq_frame, sq_run_Inv, sq_Inv_init. Qed.
